@@ -8,7 +8,7 @@
 //  still caught by ASan as SEGV.)
 //
 // One *input* = one (de)serialization that is checked:
-//   round trip : seeded instance of one of 15 message types -> SerializerIOV -> flatten -> cut at seeded points
+//   round trip : seeded instance of one of 16 message types -> SerializerIOV -> flatten -> cut at seeded points
 //                into 1..24 fragments, each its own exact-size heap block -> DeserializerIOV -> compare.
 //   hostile    : the same valid byte string after one seeded edit (length/offset/slice/pointer word set to a
 //                boundary value, truncation, extension, bit flips) or a random / length-shaped random string.
@@ -21,7 +21,8 @@
 //      "copy" that is not a copy of input bytes does not pass); a message whose wire lengths exceed the input
 //      must not be accepted; every resolved sorted_map slice lies inside the map's base buffer.
 //   O3 ASan/UBSan silence while deserialising, touching every byte of every field, iterating maps and find().
-//   O4 an altered CheckedMessage is rejected (unless the CRC really collides, which is recomputed).
+//   O4 an altered CheckedMessage is rejected: flagged when (a) the library accepts although its own checksum algorithm,
+//      recomputed here, does not match, or (b) the alteration is one no 32-bit CRC can miss (<= 3 bits / burst <= 32 bits).
 // Every batch of inputs runs in a forked child; results travel through a shared page; a child that dies
 // (sanitizer report, signal) names the input, which is re-run alone to get the report, and the rest goes on.
 #include <emmintrin.h>
@@ -44,9 +45,9 @@ using namespace photon::rpc;
     X(zero_length_fragment) X(fragments_ge8) X(single_fragment) X(edit_field_word) X(edit_resize) X(edit_bitflip) \
     X(edit_random) X(edit_left_bytes_unchanged) X(wire_lengths_exceed_input) X(wellformed_but_rejected) \
     X(map_slice_outside_base_flagged) X(flagged_oob_confirmed_by_sanitizer) X(flagged_map_library_call_skipped) \
-    X(child_deaths) X(crc_collision) X(map_find_calls) X(map_entries_iterated) X(fields_walked) X(bytes_touched) \
+    X(child_deaths) X(checked_altered_accepted_provable) X(checked_altered_accepted_not_provable) X(map_find_calls) X(map_entries_iterated) X(fields_walked) X(bytes_touched) \
     X(generator_iovfull_skipped) X(failpath_null_arith_executed) X(fixed_buffer_wire_length_mismatch_accepted) \
-    X(timeout_not_reproduced) X(death_not_reproduced_alone) X(known_crash_repeats)
+    X(stack_serializer_compared) X(nested_aligned_cases) X(timeout_not_reproduced) X(death_not_reproduced_alone) X(known_crash_repeats)
 enum Ctr {
 #define X(n) CT_##n,
     CTRS(X)
@@ -285,6 +286,11 @@ struct LiveWalker : WalkBase<LiveWalker> {
     }
 };
 
+// batch children do not pay for a symbolised report (about 3 s with the external symbolizer): the input that killed
+// them is re-run alone with reports on
+static bool g_fast_death = false;
+extern "C" void __asan_on_error() { if (g_fast_death) _exit(99); }
+
 static uint64_t g_sink;
 static void touch(const void* p, size_t n) {
     auto c = (const volatile unsigned char*)p;
@@ -441,8 +447,11 @@ struct M_Str : Message { string s0; uint32_t mid; string s1; string s2; PROCESS_
 struct M_Iov : Message { int64_t ret; iovec_array v; string name; PROCESS_FIELDS(ret, v, name); };
 struct M_AIov : Message { string fn; aligned_iovec_array av; uint64_t off; iovec_array v2; buffer tail; PROCESS_FIELDS(fn, av, off, v2, tail); };
 struct N_Leaf : Message { int32_t x; string s; buffer b; PROCESS_FIELDS(x, s, b); };
-struct N_Mid : Message { uint8_t t; N_Leaf leaf; aligned_buffer ab; array<uint16_t> arr; PROCESS_FIELDS(t, leaf, ab, arr); };
+struct N_Mid : Message { uint8_t t; N_Leaf leaf; buffer ab; array<uint16_t> arr; PROCESS_FIELDS(t, leaf, ab, arr); };
 struct M_Nested : Message { uint32_t id; N_Mid mid; string after; N_Leaf leaf2; PROCESS_FIELDS(id, mid, after, leaf2); };
+// aligned fields inside a nested message (the two-pass filter only exists at the top level)
+struct N_AlignedInner : Message { int32_t x; aligned_buffer ab; buffer b; aligned_iovec_array av; PROCESS_FIELDS(x, ab, b, av); };
+struct M_NestedAligned : Message { uint32_t id; N_AlignedInner in; string after; PROCESS_FIELDS(id, in, after); };
 struct E_Plain : Message { int32_t a = 61; float f = 6.2f; PROCESS_FIELDS(a, f); };
 struct E_Str : Message { int32_t x; string s; PROCESS_FIELDS(x, s); };
 struct M_ArrMsg : Message { uint32_t n; array<E_Plain> ep; array<E_Str> es; string tail; PROCESS_FIELDS(n, ep, es, tail); };
@@ -560,6 +569,7 @@ static void gen(G& g, M_Nested& m) {
     g.plain(m.id); g.plain(m.mid.t); gen_leaf(g, m.mid.leaf); g.buf(m.mid.ab); g.arr(m.mid.arr, 100);
     g.str(m.after); gen_leaf(g, m.leaf2);
 }
+static void gen(G& g, M_NestedAligned& m) { g.plain(m.id); g.plain(m.in.x); g.buf(m.in.ab, 300); g.buf(m.in.b, 300); g.iov(m.in.av, 3, 200); g.str(m.after); }
 static void gen(G& g, M_ArrMsg& m) {
     g.plain(m.n);
     size_t n1 = g.rlen(40);
@@ -749,7 +759,6 @@ static Edit apply_edit(vh::Rng& r, std::vector<uint8_t>& b, const ModelWalker& v
 }
 
 // ------------------------------------------------------------------ one input
-struct TypeInfo { const char* name; void (*run)(uint64_t idx, uint64_t case_seed, int variant, int tindex); };
 constexpr int VARIANTS = 4;         // variant 0 = round trip, 1..3 = hostile edits of the same instance
 static bool g_thorough = false;
 
@@ -774,12 +783,55 @@ static std::vector<size_t> make_cuts(vh::Rng& r, size_t n, const std::vector<siz
     return cuts;
 }
 
-template <class T> static void run_input(uint64_t idx, uint64_t case_seed, int variant, int tindex);
-
+// everything that needs the static message type, behind plain function pointers (keeps run_input a single function)
+struct TypeOps {
+    const char* name;
+    size_t bodysz;
+    bool checked;
+    bool rt_only;        // only the round trip is run (see wire_layout_mismatch)
+    void* (*make)(G&);
+    // returns false if the serialiser ran out of iovec slots; *sum = total bytes
+    bool (*serialize)(void* m, std::vector<uint8_t>& flat, bool on_stack, size_t* sum);
+    void (*model)(ModelWalker&, uint8_t* body);
+    void (*live)(LiveWalker&, void* msg);
+    void* (*deser)(iovector*);
+};
+template <class T> struct Ops {
+    static void* make(G& g) { T* m = g.a.obj<T>(); gen(g, *m); return m; }
+    static bool flatten(SerializerIOV& ser, std::vector<uint8_t>& flat, size_t* sum) {
+        *sum = ser.iov.sum();
+        if (ser.iovfull) return false;
+        if (*sum > (1u << 24)) return true;         // nonsense total: the caller compares sums first
+        flat.resize(*sum);
+        size_t c = ser.iov.memcpy_to(flat.data(), flat.size());
+        if (c != flat.size()) vh::machinery_failure("flatten copied a different number of bytes");
+        return true;
+    }
+    static bool serialize(void* m, std::vector<uint8_t>& flat, bool on_stack, size_t* sum) {
+        if (on_stack) {
+            SerializerIOV st;                        // the way rpc.h uses it
+            st.serialize(*(T*)m);
+            return flatten(st, flat, sum);
+        }
+        auto ser = new SerializerIOV;
+        ser->serialize(*(T*)m);
+        bool ok = flatten(*ser, flat, sum);
+        delete ser;
+        return ok;
+    }
+    static void model(ModelWalker& w, uint8_t* body) { walk_top(w, (T*)body); }
+    static void live(LiveWalker& w, void* msg) { walk_top(w, (T*)msg); }
+    static void* deser(iovector* iov) {
+        auto des = new DeserializerIOV;
+        T* r = des->deserialize<T>(iov);
+        delete des;
+        return r;
+    }
+};
 #define TYPES(X) X(M_Plain) X(M_Buf) X(M_Aligned) X(M_Fixed) X(M_Array) X(M_Str) X(M_Iov) X(M_AIov) X(M_Nested) X(M_ArrMsg) \
-    X(M_Map) X(M_Map2) X(M_Checked) X(M_CheckedMap) X(M_CheckedIov)
-static const TypeInfo g_types[] = {
-#define X(t) {#t, &run_input<t>},
+    X(M_Map) X(M_Map2) X(M_Checked) X(M_CheckedMap) X(M_CheckedIov) X(M_NestedAligned)
+static const TypeOps g_types[] = {
+#define X(t) {#t, sizeof(t), std::is_base_of<CheckedMessage<>, t>::value, std::is_same<t, M_NestedAligned>::value, &Ops<t>::make, &Ops<t>::serialize, &Ops<t>::model, &Ops<t>::live, &Ops<t>::deser},
     TYPES(X)
 #undef X
 };
@@ -792,11 +844,153 @@ static std::string witness_json(const char* type, const char* mode, const Edit& 
     return vh::JObj().kv("type", type).kv("mode", mode).kv("input_index", idx).kv("edit_class", edit_name[e.cls]).kv("edit", e.desc)
         .kv("input_len", (uint64_t)in.size()).raw("cut_points", ca.str()).kv("input_hex", vh::hex(in.data(), in.size(), 700)).str();
 }
+static IOVector* new_receiving_iov(RecAlloc* ra) {
+    return new IOVector(IOAlloc(IOAlloc::Allocator((void*)ra, &RecAlloc::do_alloc), IOAlloc::Deallocator((void*)ra, &RecAlloc::do_dealloc)), 0);
+}
 
-template <class T> static void run_input(uint64_t idx, uint64_t case_seed, int variant, int tindex) {
-    constexpr bool checked = std::is_base_of<CheckedMessage<>, T>::value;
-    const char* tname = g_types[tindex].name;
+// Used (a) for the message type with aligned fields inside a nested message and (b) whenever the serialiser did not put
+// on the wire what the reference walk of the message expects. Either a field was not transported (then the receiver is
+// left with the sender's pointer: shown here), or the reference is wrong (machinery failure).
+static void wire_layout_mismatch(const TypeOps& T, const std::vector<uint8_t>& flat, const ModelWalker& valid, uint64_t idx, uint64_t case_seed, bool layout_ok) {
+    const size_t n0 = flat.size();
+    bump(CT_nested_aligned_cases);
+    Extents ext;
+    void* blk = malloc(n0);
+    memcpy(blk, flat.data(), n0);
+    ext.frags.push_back({(const char*)blk, n0, true});
+    RecAlloc ra{&ext};
+    auto iov = new_receiving_iov(&ra);
+    iov->push_back(blk, n0);
+    crumb("deserialize");
+    void* res = T.deser(iov);
+    vh::event();
+    Edit none;
+    std::string wit = witness_json(T.name, "roundtrip", none, flat, {}, idx);
+    int found = 0;
+    if (!res) { report(std::string("roundtrip/rejected:") + T.name, "deserialize() returned null for the unmodified output of serialize()", wit); found = 1; }
+    else {
+        LiveWalker lr;
+        lr.ext = &ext;
+        T.live(lr, res);
+        for (auto& r : lr.f) {
+            bool is_iov = r.kind == K_IOVEC || r.kind == K_ALIGNED_IOVEC;
+            size_t l = is_iov ? r.arr_len : r.len;
+            if (l && !ext.where(r.ptr, l)) {
+                found++;
+                report(std::string("roundtrip/field-not-transported:") + kind_name[r.kind] + (r.depth ? "-in-nested-message" : ""),
+                       "after serialize()+deserialize() a non-empty field of the result still holds the sender's pointer: the field was never put on the "
+                       "wire (ArchiveBase's generic no-op process_field<T> is a better overload match for an aligned field than the archive's "
+                       "process_field(buffer&)/(iovec_array&) once the top-level aligned filter is out of the way), so it lies outside the supplied bytes",
+                       vh::JObj().kv("type", T.name).kv("field_kind", kind_name[r.kind]).kv("nesting_depth", (int)r.depth).kv("length", (uint64_t)l)
+                           .kv("serialized_payload_bytes", (uint64_t)(n0 - T.bodysz)).kv("expected_payload_bytes_at_least", (uint64_t)valid.cur).raw("input", wit).str());
+            }
+        }
+    }
+    shm->cur_hash = vh::mix(0xA11, case_seed);
+    shm->cur_nontrivial = 1;
+    delete iov;
+    free(blk);
+    if (!found && !layout_ok) vh::machinery_failure(std::string("reference walk disagrees with the serialiser for ") + T.name + " although every field came back inside the input");
+}
+
+// O2 for a non-null result whose wire lengths fit: every field in lockstep with the reference walk. true = a violation was reported
+static bool check_fields(LiveWalker& lr, ModelWalker& model, const Extents& ext, const std::vector<uint8_t>& in, const std::string& pfx,
+                         const std::string& sfx, const std::string& wit) {
+    // plain fields: bytes of the body (or of array elements) at the position the reference walk gives
+    for (size_t i = 0; i < lr.plain.size() && i < model.plain.size(); ++i) {
+        if (!ext.where(lr.plain[i].ptr, lr.plain[i].size) || memcmp(lr.plain[i].ptr, in.data() + model.plain[i].off, lr.plain[i].size)) {
+            report(pfx + "/field-content-differs-from-input:plain" + sfx, "a fixed field of the result is not the corresponding bytes of the input", wit);
+            return true;
+        }
+    }
+    for (size_t i = 0; i < lr.f.size(); ++i) {
+        auto& L = lr.f[i];
+        if (i >= model.f.size() || L.kind != model.f[i].kind) { report(pfx + "/field-structure-differs" + sfx, "the result has a different field structure than the wire format describes", wit); return true; }
+        auto& M = model.f[i];
+        std::string k = kind_name[L.kind];
+        crumb("walk-fields");
+        crumb_kind(k);
+        bump(CT_fields_walked);
+        bool is_iov = L.kind == K_IOVEC || L.kind == K_ALIGNED_IOVEC;
+        if (L.len != M.len) {
+            report(pfx + "/field-length-differs:" + k + sfx, "a field of the result has a different length than on the wire",
+                   vh::JObj().kv("got", (uint64_t)L.len).kv("wire", (uint64_t)M.len).raw("input", wit).str());
+            return true;
+        }
+        if (L.kind == K_FIXED && L.len != L.elem) bump(CT_fixed_buffer_wire_length_mismatch_accepted);
+        if (!is_iov) {
+            if (L.len == 0) continue;
+            if (!ext.where(L.ptr, L.len)) {
+                report(pfx + "/extent-outside-input:" + k + sfx, "a variable-length field of the result lies neither inside one supplied fragment nor inside allocator memory",
+                       vh::JObj().kv("length", (uint64_t)L.len).raw("input", wit).str());
+                return true;
+            }
+            touch(L.ptr, L.len);
+            if (L.kind != K_ARRAY_MSG && memcmp(L.ptr, in.data() + M.data_off, L.len)) {
+                report(pfx + "/field-content-differs-from-input:" + k + sfx, "a variable-length field of the result does not hold the input bytes at its wire position",
+                       vh::JObj().kv("length", (uint64_t)L.len).kv("wire_offset", (uint64_t)M.data_off).raw("input", wit).str());
+                return true;
+            }
+        } else {
+            if (L.arr_len == 0) { if (L.len) { report(pfx + "/field-length-differs:" + k + sfx, "iovec_array with a sum but no elements", wit); return true; } continue; }
+            if (!ext.where(L.ptr, L.arr_len)) { report(pfx + "/extent-outside-input:" + k + sfx, "the iovec array of an iovec_array field lies outside allocator memory", wit); return true; }
+            auto v = (const iovec*)L.ptr;
+            size_t cnt = L.arr_len / sizeof(iovec), pos = M.data_off, sum = 0;
+            for (size_t j = 0; j < cnt; ++j) {
+                if (v[j].iov_len == 0) continue;
+                if (!ext.where(v[j].iov_base, v[j].iov_len) || sum + v[j].iov_len > L.len) {
+                    report(pfx + "/extent-outside-input:" + k + sfx, "an element of an iovec_array field lies outside the supplied fragments", wit);
+                    return true;
+                }
+                touch(v[j].iov_base, v[j].iov_len);
+                if (memcmp(v[j].iov_base, in.data() + pos, v[j].iov_len)) {
+                    report(pfx + "/field-content-differs-from-input:" + k + sfx, "an iovec_array field does not hold the input bytes at its wire position", wit);
+                    return true;
+                }
+                pos += v[j].iov_len;
+                sum += v[j].iov_len;
+            }
+            if (sum != L.len) { report(pfx + "/field-length-differs:" + k + sfx, "the elements of an iovec_array field do not add up to its summed size", wit); return true; }
+        }
+    }
+    if (lr.bad_extent || lr.f.size() != model.f.size() || lr.plain.size() != model.plain.size()) {
+        report(pfx + "/extent-outside-input:array<message>" + sfx, "an array of messages in the result lies outside the input, or the field structure differs", wit);
+        return true;
+    }
+    return false;
+}
+
+// O1: the result against the original. true = equal
+static bool compare_roundtrip(LiveWalker& lo, LiveWalker& lr, const std::string& wit) {
+    bool same = lo.f.size() == lr.f.size() && lo.plain.size() == lr.plain.size();
+    if (!same) report("roundtrip/field-differs:structure", "the result has a different field structure than the original", wit);
+    for (size_t i = 0; same && i < lo.plain.size(); ++i)
+        if (memcmp(lo.plain[i].ptr, lr.plain[i].ptr, lo.plain[i].size)) { same = false; report("roundtrip/field-differs:plain", "a fixed field differs after a round trip", wit); }
+    for (size_t i = 0; same && i < lo.f.size(); ++i) {
+        auto &A = lo.f[i], &B = lr.f[i];
+        bool eq = A.kind == B.kind && A.len == B.len;
+        if (eq && A.len && A.kind != K_ARRAY_MSG) {
+            if (A.kind == K_IOVEC || A.kind == K_ALIGNED_IOVEC) {
+                std::string a, b;
+                auto va = (const iovec*)A.ptr;
+                for (size_t j = 0; j < A.arr_len / sizeof(iovec); ++j) a.append((const char*)va[j].iov_base, va[j].iov_len);
+                auto vb = (const iovec*)B.ptr;
+                for (size_t j = 0; j < B.arr_len / sizeof(iovec); ++j) b.append((const char*)vb[j].iov_base, vb[j].iov_len);
+                eq = a == b;
+            } else eq = !memcmp(A.ptr, B.ptr, A.len);
+        }
+        if (!eq) { same = false; report(std::string("roundtrip/field-differs:") + kind_name[A.kind], "a variable-length field differs after a round trip (length or bytes)",
+                                       vh::JObj().kv("field_index", (uint64_t)i).kv("orig_len", (uint64_t)A.len).kv("got_len", (uint64_t)B.len).raw("input", wit).str()); }
+    }
+    return same;
+}
+
+static void run_input(uint64_t idx, uint64_t case_seed, int variant, int tindex) {
+    const TypeOps& T = g_types[tindex];
+    const bool checked = T.checked;
+    const char* tname = T.name;
     const bool rt = variant == 0;
+    if (T.rt_only && !rt) return;
     cpy(shm->type, sizeof(shm->type), tname);
     cpy(shm->mode, sizeof(shm->mode), rt ? "roundtrip" : "hostile");
     cpy(shm->edit, sizeof(shm->edit), "none");
@@ -807,35 +1001,37 @@ template <class T> static void run_input(uint64_t idx, uint64_t case_seed, int v
     vh::Rng gr(case_seed);
     Arena arena;
     G g{gr, arena, g_thorough && gr.chance(1, 6)};
-    T* m = arena.obj<T>();
-    gen(g, *m);
+    void* m = T.make(g);
     crumb("serialize");
     std::vector<uint8_t> flat;
-    {
-        auto ser = new SerializerIOV;
-        ser->serialize(*m);
-        bool full = ser->iovfull;
-        if (!full) {
-            flat.resize(ser->iov.sum());
-            size_t c = ser->iov.memcpy_to(flat.data(), flat.size());
-            if (c != flat.size()) vh::machinery_failure("flatten copied a different number of bytes");
-        }
-        delete ser;
-        if (full) { bump(CT_generator_iovfull_skipped); return; }
-    }
+    size_t sum0 = 0;
+    if (!T.serialize(m, flat, false, &sum0)) { bump(CT_generator_iovfull_skipped); return; }
     vh::event();
-    const size_t n0 = flat.size(), bodysz = sizeof(T);
-    if (n0 < bodysz) { report("roundtrip/short-serialization", "serialize() produced fewer bytes than the message body", "null"); return; }
+    const size_t n0 = flat.size(), bodysz = T.bodysz;
+    if (n0 != sum0 || n0 < bodysz) { report("roundtrip/short-serialization", "serialize() produced fewer bytes than the message body", "null"); return; }
     ModelWalker valid(flat.data(), n0 - bodysz);
-    walk_top(valid, (T*)(flat.data() + n0 - bodysz));
-    if (valid.fail || valid.cur != n0 - bodysz) {
-        // the reference walk must agree with the serialiser on its own output, or the oracle is meaningless
-        report(std::string("roundtrip/wire-layout:") + tname, "the serialised bytes are not laid out as [aligned fields][fields][body]",
-               vh::JObj().kv("type", tname).kv("payload", (uint64_t)(n0 - bodysz)).kv("walked", (uint64_t)valid.cur).kv("fail", valid.fail).str());
+    T.model(valid, flat.data() + n0 - bodysz);
+    const bool layout_ok = !valid.fail && valid.cur == n0 - bodysz;
+    if (!layout_ok || T.rt_only) {
+        if (variant == 0) wire_layout_mismatch(T, flat, valid, idx, case_seed, layout_ok);
         return;
     }
+    if (rt) {
+        // the same call with the SerializerIOV (and its iovec array) as a local variable
+        crumb("serialize-on-stack");
+        std::vector<uint8_t> f2;
+        size_t s2 = 0;
+        bool ok2 = T.serialize(m, f2, true, &s2);
+        bump(CT_stack_serializer_compared);
+        bool same = ok2 && s2 == n0 && f2.size() == n0;
+        if (same && checked) memcpy(&f2[n0 - bodysz], &flat[n0 - bodysz], 4);      // the second call started from a non-zero checksum
+        if (same) same = f2 == flat;
+        if (!same)
+            report("roundtrip/serializer-on-stack-differs", "SerializerIOV as a local variable produced a different byte string than a heap-allocated one for the same message",
+                   vh::JObj().kv("type", tname).kv("bytes_heap", (uint64_t)n0).kv("bytes_stack", (uint64_t)s2).str());
+    }
     LiveWalker lo;
-    walk_top(lo, m);
+    T.live(lo, m);
     uint64_t h = vh::mix(0xC12, tindex);
     for (auto& p : lo.plain) h = vh::hash_bytes(p.ptr, p.size, h);
     for (auto& r : lo.f) { h = vh::mix(h, r.len * 16 + r.kind); if (r.len && r.kind != K_ARRAY_MSG && r.kind != K_IOVEC && r.kind != K_ALIGNED_IOVEC) h = vh::hash_bytes(r.ptr, r.len, h); }
@@ -859,17 +1055,18 @@ template <class T> static void run_input(uint64_t idx, uint64_t case_seed, int v
     // ---- reference walk of the input
     bool body_short = n < bodysz;
     ModelWalker model(in.data(), body_short ? 0 : n - bodysz);
-    if (!body_short) walk_top(model, (T*)(in.data() + n - bodysz));
+    if (!body_short) T.model(model, in.data() + n - bodysz);
     bool model_fail = body_short || model.fail;
     if (model_fail) bump(CT_wire_lengths_exceed_input);
     if (model.failpath_null_arith) bump(CT_failpath_null_arith_executed);
     bool crc_ok = true;
     if (checked && !body_short) {
-        std::vector<uint8_t> tmp(in);
-        uint32_t stored;
-        memcpy(&stored, &tmp[n - bodysz], 4);
-        memset(&tmp[n - bodysz], 0, 4);
-        crc_ok = crc32c_extend(tmp.data(), n, 0) == stored;
+        // the checksum word lives inside the body and holds the running value while the body is hashed (on both sides)
+        std::vector<uint8_t> body(in.end() - bodysz, in.end());
+        uint32_t stored, run = crc32c_extend(in.data(), n - bodysz, 0);
+        memcpy(&stored, &body[0], 4);
+        memcpy(&body[0], &run, 4);
+        crc_ok = crc32c_extend(body.data(), bodysz, run) == stored;
     }
 
     // ---- fragmentation
@@ -927,13 +1124,11 @@ template <class T> static void run_input(uint64_t idx, uint64_t case_seed, int v
 
     // ---- deserialise
     RecAlloc ra{&ext};
-    auto iov = new IOVector(IOAlloc(IOAlloc::Allocator((void*)&ra, &RecAlloc::do_alloc), IOAlloc::Deallocator((void*)&ra, &RecAlloc::do_dealloc)), 0);
+    auto iov = new_receiving_iov(&ra);
     for (auto& f : ext.frags) iov->push_back((void*)f.p, f.n);
     crumb("deserialize");
     crumb_kind(body_short ? "body-overrun" : model.fail ? std::string(kind_name[model.fail_kind]) + "-overrun" : std::string("wellformed:") + tname);
-    auto des = new DeserializerIOV;
-    T* res = des->deserialize<T>(iov);
-    delete des;
+    void* res = T.deser(iov);
     vh::event();
     const std::string pfx = rt ? "roundtrip" : "hostile";
     const std::string sfx = rt ? std::string() : std::string(":") + edit_name[ed.cls];
@@ -949,11 +1144,31 @@ template <class T> static void run_input(uint64_t idx, uint64_t case_seed, int v
     } else do {
         if (!rt) bump(CT_hostile_accepted);
         if (checked && !crc_ok) {
-            report("checked/altered-accepted" + sfx, "a CheckedMessage whose bytes no longer match its checksum was accepted", wit);
+            report("checked/checksum-mismatch-accepted" + sfx, "a CheckedMessage was accepted although the checksum it carries is not the one its own algorithm computes over the received bytes", wit);
             break;
         }
-        if (checked && altered) bump(CT_crc_collision);
-        // body
+        if (checked && altered) {
+            // O4. Accepting an altered checked message is only called a violation when a 32-bit CRC over the message is
+            // *certain* to notice the alteration: same length and at most 3 changed bits, or all changed bits within 32 bits
+            // (CRC-32C: Hamming distance >= 4 at these lengths; every burst <= 32 bits). Anything else could be a collision.
+            bool provable = false, in_body = false;
+            if (n == n0) {
+                size_t first = SIZE_MAX, last = 0, bits = 0;
+                for (size_t i = 0; i < n; ++i) {
+                    uint8_t d = in[i] ^ flat[i];
+                    if (!d) continue;
+                    if (i >= n - bodysz) in_body = true;
+                    for (int b = 0; b < 8; ++b) if (d & (1u << b)) { bits++; size_t pos = i * 8 + b; if (first == SIZE_MAX) first = pos; last = pos; }
+                }
+                provable = bits > 0 && (bits <= 3 || last - first < 32);
+            }
+            if (provable) {
+                report(std::string("checked/altered-accepted:") + (in_body ? "body" : "payload") + sfx,
+                       "a CheckedMessage was accepted although its bytes were altered in a way a CRC-32 over the message cannot miss (<= 3 bits, or a burst <= 32 bits)",
+                       vh::JObj().kv("altered_region", in_body ? "body" : "payload (the variable-length fields)").raw("input", wit).str());
+                bump(CT_checked_altered_accepted_provable);
+            } else bump(CT_checked_altered_accepted_not_provable);
+        }
         if (!ext.where(res, bodysz)) { report(pfx + "/extent-outside-input:body" + sfx, "the returned message body is neither inside a supplied fragment nor inside allocator memory", wit); break; }
         if (model_fail) {
             std::string k = body_short ? "body" : kind_name[model.fail_kind];
@@ -964,94 +1179,11 @@ template <class T> static void run_input(uint64_t idx, uint64_t case_seed, int v
         }
         LiveWalker lr;
         lr.ext = &ext;
-        walk_top(lr, res);
-        bool stop = false;
-        // plain fields: bytes of the body (or of array elements) at the position the reference walk gives
-        for (size_t i = 0; i < lr.plain.size() && i < model.plain.size() && !stop; ++i) {
-            if (!ext.where(lr.plain[i].ptr, lr.plain[i].size) || memcmp(lr.plain[i].ptr, in.data() + model.plain[i].off, lr.plain[i].size)) {
-                report(pfx + "/field-content-differs-from-input:plain" + sfx, "a fixed field of the result is not the corresponding bytes of the input", wit);
-                stop = true;
-            }
-        }
-        for (size_t i = 0; i < lr.f.size() && !stop; ++i) {
-            auto& L = lr.f[i];
-            if (i >= model.f.size() || L.kind != model.f[i].kind) { report(pfx + "/field-structure-differs" + sfx, "the result has a different field structure than the wire format describes", wit); stop = true; break; }
-            auto& M = model.f[i];
-            std::string k = kind_name[L.kind];
-            crumb("walk-fields");
-            crumb_kind(k);
-            bump(CT_fields_walked);
-            bool is_iov = L.kind == K_IOVEC || L.kind == K_ALIGNED_IOVEC;
-            if (L.len != M.len) {
-                report(pfx + "/field-length-differs:" + k + sfx, "a field of the result has a different length than on the wire",
-                       vh::JObj().kv("got", (uint64_t)L.len).kv("wire", (uint64_t)M.len).raw("input", wit).str());
-                stop = true; break;
-            }
-            if (L.kind == K_FIXED && L.len != L.elem) bump(CT_fixed_buffer_wire_length_mismatch_accepted);
-            if (!is_iov) {
-                if (L.len == 0) continue;
-                if (!ext.where(L.ptr, L.len)) {
-                    report(pfx + "/extent-outside-input:" + k + sfx, "a variable-length field of the result lies neither inside one supplied fragment nor inside allocator memory",
-                           vh::JObj().kv("length", (uint64_t)L.len).raw("input", wit).str());
-                    stop = true; break;
-                }
-                touch(L.ptr, L.len);
-                if (L.kind != K_ARRAY_MSG && memcmp(L.ptr, in.data() + M.data_off, L.len)) {
-                    report(pfx + "/field-content-differs-from-input:" + k + sfx, "a variable-length field of the result does not hold the input bytes at its wire position",
-                           vh::JObj().kv("length", (uint64_t)L.len).kv("wire_offset", (uint64_t)M.data_off).raw("input", wit).str());
-                    stop = true; break;
-                }
-            } else {
-                if (L.arr_len == 0) { if (L.len) { report(pfx + "/field-length-differs:" + k + sfx, "iovec_array with a sum but no elements", wit); stop = true; } continue; }
-                if (!ext.where(L.ptr, L.arr_len)) { report(pfx + "/extent-outside-input:" + k + sfx, "the iovec array of an iovec_array field lies outside allocator memory", wit); stop = true; break; }
-                auto v = (const iovec*)L.ptr;
-                size_t cnt = L.arr_len / sizeof(iovec), pos = M.data_off, sum = 0;
-                for (size_t j = 0; j < cnt && !stop; ++j) {
-                    if (v[j].iov_len == 0) continue;
-                    if (!ext.where(v[j].iov_base, v[j].iov_len) || sum + v[j].iov_len > L.len) {
-                        report(pfx + "/extent-outside-input:" + k + sfx, "an element of an iovec_array field lies outside the supplied fragments", wit);
-                        stop = true; break;
-                    }
-                    touch(v[j].iov_base, v[j].iov_len);
-                    if (memcmp(v[j].iov_base, in.data() + pos, v[j].iov_len)) {
-                        report(pfx + "/field-content-differs-from-input:" + k + sfx, "an iovec_array field does not hold the input bytes at its wire position", wit);
-                        stop = true; break;
-                    }
-                    pos += v[j].iov_len;
-                    sum += v[j].iov_len;
-                }
-                if (!stop && sum != L.len) { report(pfx + "/field-length-differs:" + k + sfx, "the elements of an iovec_array field do not add up to its summed size", wit); stop = true; }
-            }
-        }
-        if (!stop && (lr.bad_extent || lr.f.size() != model.f.size() || lr.plain.size() != model.plain.size())) {
-            report(pfx + "/extent-outside-input:array<message>" + sfx, "an array of messages in the result lies outside the input, or the field structure differs", wit);
-            stop = true;
-        }
-        if (stop) break;
-        // ---- round trip: equal to the original
+        T.live(lr, res);
+        if (check_fields(lr, model, ext, in, pfx, sfx, wit)) break;
         if (rt) {
             crumb("compare");
-            bool same = lo.f.size() == lr.f.size() && lo.plain.size() == lr.plain.size();
-            for (size_t i = 0; same && i < lo.plain.size(); ++i)
-                if (memcmp(lo.plain[i].ptr, lr.plain[i].ptr, lo.plain[i].size)) { same = false; report("roundtrip/field-differs:plain", "a fixed field differs after a round trip", wit); }
-            for (size_t i = 0; same && i < lo.f.size(); ++i) {
-                auto &A = lo.f[i], &B = lr.f[i];
-                bool eq = A.kind == B.kind && A.len == B.len;
-                if (eq && A.len && A.kind != K_ARRAY_MSG) {
-                    if (A.kind == K_IOVEC || A.kind == K_ALIGNED_IOVEC) {
-                        std::string a, b;
-                        auto va = (const iovec*)A.ptr;
-                        for (size_t j = 0; j < A.arr_len / sizeof(iovec); ++j) a.append((const char*)va[j].iov_base, va[j].iov_len);
-                        auto vb = (const iovec*)B.ptr;
-                        for (size_t j = 0; j < B.arr_len / sizeof(iovec); ++j) b.append((const char*)vb[j].iov_base, vb[j].iov_len);
-                        eq = a == b;
-                    } else eq = !memcmp(A.ptr, B.ptr, A.len);
-                }
-                if (!eq) { same = false; report(std::string("roundtrip/field-differs:") + kind_name[A.kind], "a variable-length field differs after a round trip (length or bytes)",
-                                               vh::JObj().kv("field_index", (uint64_t)i).kv("orig_len", (uint64_t)A.len).kv("got_len", (uint64_t)B.len).raw("input", wit).str()); }
-            }
-            if (lo.f.size() != lr.f.size() || lo.plain.size() != lr.plain.size()) report("roundtrip/field-differs:structure", "the result has a different field structure than the original", wit);
-            if (same) { bump(CT_roundtrip_ok); if (checked) bump(CT_checked_roundtrip_ok); }
+            if (compare_roundtrip(lo, lr, wit)) { bump(CT_roundtrip_ok); if (checked) bump(CT_checked_roundtrip_ok); }
         }
         // ---- maps: explicit slice check, iteration, find()
         for (size_t i = 0; i < lr.maps.size(); ++i) {
@@ -1080,12 +1212,13 @@ static void run_index(uint64_t xseed, uint64_t idx) {
     int t = (int)(vh::mix(cs, 77) % NTYPES);
     int forced = (int)vh::args().geti("type", -1);
     if (forced >= 0 && forced < NTYPES) t = forced;
-    g_types[t].run(idx, cs, variant, t);
+    run_input(idx, cs, variant, t);
 }
 
 // ------------------------------------------------------------------ parent: batches in forked children
 static vh::NamedCounter* g_nc[CT_N];
 static std::set<std::string> g_seen_death_keys;
+static std::map<std::string, std::pair<std::string, std::string>> g_report_cache;
 
 static void merge_shm(bool discard = false) {
     if (!discard) {
@@ -1112,7 +1245,7 @@ static std::string slurp(const std::string& path, size_t max) {
 }
 
 // returns wait status; runs inputs [from, to)
-static int run_child(uint64_t xseed, uint64_t from, uint64_t to, const std::string& errfile, unsigned alarm_s) {
+static int run_child(uint64_t xseed, uint64_t from, uint64_t to, const std::string& errfile, unsigned alarm_s, bool fast_death) {
     fflush(stdout);
     fflush(stderr);
     pid_t pid = fork();
@@ -1120,6 +1253,7 @@ static int run_child(uint64_t xseed, uint64_t from, uint64_t to, const std::stri
     if (pid == 0) {
         int fd = open(errfile.c_str(), O_WRONLY | O_CREAT | O_TRUNC, 0644);
         if (fd >= 0) { dup2(fd, 2); dup2(fd, 1); close(fd); }
+        g_fast_death = fast_death;
         for (uint64_t i = from; i < to; ++i) {
             shm->cur = i;
             shm->cur_hash = 0;
@@ -1181,7 +1315,7 @@ int main(int argc, char** argv) {
         uint64_t to = std::min(end, next + BATCH);
         shm->cur = next;
         shm->done = next;
-        int status = run_child(xseed, next, to, errfile, 60);
+        int status = run_child(xseed, next, to, errfile, 60, true);
         vh::progress();
         bool clean = WIFEXITED(status) && WEXITSTATUS(status) == 0 && shm->done == to;
         uint64_t dying = shm->cur;
@@ -1200,7 +1334,7 @@ int main(int argc, char** argv) {
         next = dying + 1;
         if (WIFSIGNALED(status) && WTERMSIG(status) == SIGALRM) {
             // no progress on one input for 60 s: once more alone with twice the time before saying anything
-            int st2 = run_child(xseed, dying, dying + 1, errfile, 120);
+            int st2 = run_child(xseed, dying, dying + 1, errfile, 120, true);
             merge_shm(true);
             if (WIFSIGNALED(st2) && WTERMSIG(st2) == SIGALRM)
                 vh::violation(mode + "/hang:" + stage + ":" + kind + (mode == "hostile" ? ":" + edit : ""),
@@ -1216,18 +1350,31 @@ int main(int argc, char** argv) {
         std::string key = mode + "/death:" + stage + ":" + kind + (mode == "hostile" ? ":" + edit : "");
         if (g_seen_death_keys.count(key)) { g_nc[CT_known_crash_repeats]->add(); continue; }
         g_seen_death_keys.insert(key);
-        int st2 = run_child(xseed, dying, dying + 1, errfile, 120);
-        merge_shm(true);
-        std::string err2 = slurp(errfile, 200000);
-        bool again = !(WIFEXITED(st2) && WEXITSTATUS(st2) == 0);
-        if (!again) g_nc[CT_death_not_reproduced_alone]->add();
-        const std::string& err = again ? err2 : batch_err;
-        std::string summ = sanitizer_summary(err);
+        // one symbolised report per (mode, stage, kind); the other edit classes of the same failure quote it
+        std::string ckey = mode + "/" + stage + "/" + kind;
+        auto cached = g_report_cache.find(ckey);
+        std::string summ, excerpt, stat;
+        bool again = true;
+        if (cached != g_report_cache.end()) {
+            summ = cached->second.first;
+            excerpt = "(report of the first death at this stage and field kind in this execution) " + cached->second.second;
+            stat = describe_status(status);
+        } else {
+            int st2 = run_child(xseed, dying, dying + 1, errfile, 120, false);
+            merge_shm(true);
+            std::string err2 = slurp(errfile, 200000);
+            again = !(WIFEXITED(st2) && WEXITSTATUS(st2) == 0);
+            if (!again) g_nc[CT_death_not_reproduced_alone]->add();
+            const std::string& err = again ? err2 : batch_err;
+            summ = sanitizer_summary(err);
+            excerpt = report_excerpt(err);
+            stat = describe_status(again ? st2 : status);
+            if (again) g_report_cache[ckey] = {summ, excerpt};
+        }
         vh::violation(key,
-                      "the process died (" + describe_status(again ? st2 : status) + (summ.empty() ? "" : ", " + summ) + ") during stage '" + stage + "' of a " + mode +
+                      "the process died (" + stat + (summ.empty() ? "" : ", " + summ) + ") during stage '" + stage + "' of a " + mode +
                           " input of type " + type + " [" + kind + "]" + (again ? "" : " (in its batch; alone it did not die)"),
-                      vh::JObj().raw("input", wit.empty() ? "null" : wit).kv("stage", stage).kv("status", describe_status(again ? st2 : status))
-                          .kv("report", report_excerpt(err)).str());
+                      vh::JObj().raw("input", wit.empty() ? "null" : wit).kv("stage", stage).kv("status", stat).kv("report", excerpt).str());
     }
     unlink(errfile.c_str());
     return vh::finish();
